@@ -1612,4 +1612,379 @@ theorem C_setGroupList (m : Mem) (bk bl an : Nat) (gl : List (Nat × List UInt8)
     have hcont : (gl.map (·.2)).contains nm = false := by simpa using hmem
     exact ⟨m', loc', _, _, _, he, hg, by simp only [Econf.addGroup, hcont, Bool.false_eq_true, if_false, List.map_append, List.map_cons, List.map_nil], by simp⟩
 
+/-! ## `cpy_file_entry` (lib/helpers.c) -/
+
+/-- `setGroupList` as its callers see it: the object's group list becomes `addGroup`, the result is the list's element for
+    the name, every block of the old memory other than the struct and the old array is as before, nothing shrinks -/
+theorem setGroupList_spec (m : Mem) (bk bl an : Nat) (gl : List (Nat × List UInt8)) (nm : List UInt8) (h : GlMem m bk bl gl)
+    (hn : m.cstr an 0 = .ok nm) (hkw : ∀ blk, m[bk]? = some blk → blk.writable = true) (hne : bk ≠ bl)
+    (hd : ∀ e, e ∈ gl → e.1 ≠ bk ∧ e.1 ≠ bl) (han : an ≠ bk ∧ an ≠ bl)
+    (hsmall : (gl.length : Int) + 2 < 2147483648) (fuel : Nat) (hf : gl.length + 1 < fuel) :
+    ∃ m' loc' b' bl' gl', exec fuel LeafFns.setGroupList.body { mem := m, loc := [.ptr bk 0, .ptr an 0, .undef] } =
+        .ret (.ptr b' 0) { mem := m', loc := loc' } ∧
+      GlMem m' bk bl' gl' ∧ gl'.map (·.2) = Econf.addGroup (gl.map (·.2)) nm ∧ (b', nm) ∈ gl' ∧
+      m.length ≤ m'.length ∧ (∀ b, b < m.length → b ≠ bk → b ≠ bl → m'[b]? = m[b]?) ∧
+      (∀ blk, m'[bk]? = some blk → blk.writable = true) ∧ bk ≠ bl' ∧ (∀ e, e ∈ gl' → e.1 ≠ bk ∧ e.1 ≠ bl') ∧ gl'.length ≤ gl.length + 1 := by
+  have hc := firstN_mem gl nm
+  by_cases hlt : firstN gl nm < gl.length
+  · obtain ⟨loc', he⟩ := setGroupList_found m bk bl an gl nm h hn (by omega) fuel hf hlt
+    have hmem : nm ∈ gl.map (·.2) := hc.1 hlt
+    have hcont : (gl.map (·.2)).contains nm = true := by simpa using hmem
+    refine ⟨m, loc', _, bl, gl, he, h, by simp only [Econf.addGroup, hcont, if_true], ?_, Nat.le_refl _, fun _ _ _ _ => rfl, hkw, hne, hd, by omega⟩
+    have hat := firstN_at gl nm hlt
+    have hx : gl[firstN gl nm] = ((gl[firstN gl nm]).1, nm) := Prod.ext rfl hat
+    have := List.getElem_mem hlt
+    rw [hx] at this
+    exact this
+  · obtain ⟨m', loc', he, hg, hlen, hfr, hkf⟩ := setGroupList_new m bk bl an gl nm h hn hkw hne hd han hsmall fuel hf hlt
+    have hmem : ¬ nm ∈ gl.map (·.2) := fun hh => hlt (hc.2 hh)
+    have hcont : (gl.map (·.2)).contains nm = false := by simpa using hmem
+    obtain ⟨kblk, k1, _⟩ := h.kf
+    have hbk : bk < m.length := (List.getElem?_eq_some_iff.1 k1).1
+    obtain ⟨gblk, g1, _⟩ := h.arr
+    have hbl : bl < m.length := (List.getElem?_eq_some_iff.1 g1).1
+    refine ⟨m', loc', _, _, _, he, hg, by simp only [Econf.addGroup, hcont, Bool.false_eq_true, if_false, List.map_append, List.map_cons, List.map_nil], by simp,
+      by omega, hfr, ?_, by omega, ?_, by simp⟩
+    · intro blk hb
+      obtain ⟨kb', hkb'⟩ : ∃ kb', m'[bk]? = some kb' := ⟨blk, hb⟩
+      have := (hkf kblk blk k1 hb).2.1
+      exact this
+    · intro e he'
+      rcases List.mem_append.1 he' with h1 | h1
+      · have := hd e h1
+        have hlt' : e.1 < m.length := by
+          obtain ⟨i, hi, rfl⟩ := List.getElem_of_mem h1
+          obtain ⟨ablk, a1, a2, a3, a4⟩ := h.arr
+          exact cstr_lt (a4 i hi).2
+        exact ⟨this.1, by omega⟩
+      · simp at h1
+        subst h1
+        simp
+        omega
+
+/-- `copy.member = strdup(src.member)` for member number `k` of a struct copy that lives in block `L` -/
+theorem cp_strdup (fuel : Nat) (mm : Mem) (bk bs L os k : Nat) (sl : List Val) (b : Nat) (s : List UInt8)
+    (hL : mm[L]? = some { cells := [], slots := sl }) (hk : k < sl.length)
+    (hsrc : mm.loadSlot bs ((os : Int) + (k : Int)) = .ok (.ptr b 0)) (hstr : mm.cstr b 0 = .ok s) :
+    ∃ mm', exec fuel (.expr (.assign (.slot (.load (.var 2) .ptr) k) (.call "strdup" (.cons (.load (.slot (.load (.var 1) .ptr) k) .ptr) .nil)) .ptr))
+        { mem := mm, loc := [.ptr bk 0, .ptr bs (os : Int), .ptr L 0] } = .normal { mem := mm', loc := [.ptr bk 0, .ptr bs (os : Int), .ptr L 0] } ∧
+      mm'[L]? = some { cells := [], slots := sl.set k (.ptr mm.length 0) } ∧ mm'.length = mm.length + 1 ∧
+      mm'.cstr mm.length 0 = .ok s ∧ ∀ b', b' < mm.length → b' ≠ L → mm'[b']? = mm[b']? := by
+  obtain ⟨m1, hsd, hmb, hlen, hfr⟩ := strdup_spec mm b 0 s hstr
+  have hLlt : L < mm.length := (List.getElem?_eq_some_iff.1 hL).1
+  have hL1 : m1[L]? = some { cells := [], slots := sl } := by rw [hfr L hLlt]; exact hL
+  have hst := storeSlot_of (m := m1) (b := L) (i := k) (.ptr mm.length 0) hL1 rfl rfl hk
+  refine ⟨m1.set L { cells := [], slots := sl.set k (.ptr mm.length 0) }, ?_, ?_, by simp [hlen], ?_, ?_⟩
+  · simp [exec, evalE, evalL, evalArgs, readPlace, writePlace, hsrc, hsd, convert, hst, bind, Except.bind, Except.map]
+  · have : L < m1.length := by omega
+    simp [this]
+  · have hne : mm.length ≠ L := by omega
+    rw [cstr_congr (set_other hne)]
+    exact hmb.cstr0 (rest := []) (cstr_nz hstr)
+  · intro b' hb' hne
+    rw [set_other hne, hfr b' hb']
+
+/-- `copy.member = NULL` -/
+theorem cp_null (fuel : Nat) (mm : Mem) (bk bs L os k : Nat) (sl : List Val)
+    (hL : mm[L]? = some { cells := [], slots := sl }) (hk : k < sl.length) :
+    exec fuel (.expr (.assign (.slot (.load (.var 2) .ptr) k) .null .ptr))
+        { mem := mm, loc := [.ptr bk 0, .ptr bs (os : Int), .ptr L 0] } =
+      .normal { mem := mm.set L { cells := [], slots := sl.set k .null }, loc := [.ptr bk 0, .ptr bs (os : Int), .ptr L 0] } := by
+  have hst := storeSlot_of (m := mm) (b := L) (i := k) .null hL rfl rfl hk
+  simp [exec, evalE, evalL, readPlace, writePlace, convert, hst, bind, Except.bind, Except.map]
+
+/-- an optional string member: NULL, or a pointer to a C string -/
+inductive OptStr (m : Mem) : Val → Option (List UInt8) → Prop where
+  | none : OptStr m .null none
+  | some (b : Nat) (s : List UInt8) (h : m.cstr b 0 = .ok s) : OptStr m (.ptr b 0) (some s)
+
+/-- `if (src.member) copy.member = strdup(src.member); else copy.member = NULL;` -/
+theorem cp_opt (fuel : Nat) (mm : Mem) (bk bs L os k : Nat) (sl : List Val) (v : Val) (s : Option (List UInt8))
+    (hL : mm[L]? = some { cells := [], slots := sl }) (hk : k < sl.length)
+    (hsrc : mm.loadSlot bs ((os : Int) + (k : Int)) = .ok v) (hv : OptStr mm v s) :
+    ∃ mm' v', exec fuel (.ite (.load (.slot (.load (.var 1) .ptr) k) .ptr)
+          (.expr (.assign (.slot (.load (.var 2) .ptr) k) (.call "strdup" (.cons (.load (.slot (.load (.var 1) .ptr) k) .ptr) .nil)) .ptr))
+          (.expr (.assign (.slot (.load (.var 2) .ptr) k) .null .ptr)))
+        { mem := mm, loc := [.ptr bk 0, .ptr bs (os : Int), .ptr L 0] } = .normal { mem := mm', loc := [.ptr bk 0, .ptr bs (os : Int), .ptr L 0] } ∧
+      mm'[L]? = some { cells := [], slots := sl.set k v' } ∧ OptStr mm' v' s ∧ mm.length ≤ mm'.length ∧
+      (∀ b', b' < mm.length → b' ≠ L → mm'[b']? = mm[b']?) := by
+  have hLlt : L < mm.length := (List.getElem?_eq_some_iff.1 hL).1
+  cases hv with
+  | none =>
+    have ht : testOf (some (.load (.slot (.load (.var 1) .ptr) k) .ptr)) { mem := mm, loc := [.ptr bk 0, .ptr bs (os : Int), .ptr L 0] } =
+        .ok (false, { mem := mm, loc := [.ptr bk 0, .ptr bs (os : Int), .ptr L 0] }) := by
+      simp [testOf, evalE, evalL, readPlace, hsrc, truth, bind, Except.bind]
+    refine ⟨_, .null, by rw [exec_ite_false ht]; exact cp_null fuel mm bk bs L os k sl hL hk, by simp [hLlt], .none, by simp, fun b' _ hne => set_other hne⟩
+  | some b str hc =>
+    have ht : testOf (some (.load (.slot (.load (.var 1) .ptr) k) .ptr)) { mem := mm, loc := [.ptr bk 0, .ptr bs (os : Int), .ptr L 0] } =
+        .ok (true, { mem := mm, loc := [.ptr bk 0, .ptr bs (os : Int), .ptr L 0] }) := by
+      simp [testOf, evalE, evalL, readPlace, hsrc, truth, bind, Except.bind]
+    obtain ⟨mm', he, h1, h2, h3, h4⟩ := cp_strdup fuel mm bk bs L os k sl b str hL hk hsrc hc
+    exact ⟨mm', _, by rw [exec_ite_true ht]; exact he, h1, .some _ _ h3, by omega, h4⟩
+
+theorem OptStr.mono {m m' : Mem} {v : Val} {s : Option (List UInt8)} (h : OptStr m v s)
+    (hm : ∀ b, v = .ptr b 0 → m'[b]? = m[b]?) : OptStr m' v s := by
+  cases h with
+  | none => exact .none
+  | some b str hc => exact .some b str (by rw [cstr_congr (hm b rfl)]; exact hc)
+
+/-- one `struct file_entry` at word `os` of block `bs`, holding the entry `e`; none of the blocks it uses is in `avoid` -/
+structure EntMem (m : Mem) (bs os : Nat) (e : Econf.Entry) (avoid : List Nat) : Prop where
+  self : bs ∉ avoid
+  grp : ∃ b, m.loadSlot bs (os : Int) = .ok (.ptr b 0) ∧ m.cstr b 0 = .ok e.group ∧ b ∉ avoid
+  key : ∃ b, m.loadSlot bs ((os : Int) + 1) = .ok (.ptr b 0) ∧ m.cstr b 0 = .ok e.key ∧ b ∉ avoid
+  val : ∃ v, m.loadSlot bs ((os : Int) + 2) = .ok v ∧ OptStr m v e.value ∧ ∀ b, v = .ptr b 0 → b ∉ avoid
+  cb : ∃ v, m.loadSlot bs ((os : Int) + 3) = .ok v ∧ OptStr m v e.cb ∧ ∀ b, v = .ptr b 0 → b ∉ avoid
+  ca : ∃ v, m.loadSlot bs ((os : Int) + 4) = .ok v ∧ OptStr m v e.ca ∧ ∀ b, v = .ptr b 0 → b ∉ avoid
+  line : m.loadSlot bs ((os : Int) + 5) = .ok (.int (e.line : Int))
+
+theorem cstr_lt' {m : Mem} {b : Nat} {s : List UInt8} (h : m.cstr b 0 = .ok s) : b < m.length := cstr_lt h
+
+theorem loadSlot_lt {m : Mem} {b : Nat} {i : Int} {v : Val} (h : m.loadSlot b i = .ok v) : b < m.length := by
+  cases hb : m[b]? with
+  | none => simp [Mem.loadSlot, Mem.block, hb, bind, Except.bind] at h
+  | some blk => exact (List.getElem?_eq_some_iff.1 hb).1
+
+theorem OptStr.lt {m : Mem} {v : Val} {s : Option (List UInt8)} (h : OptStr m v s) : ∀ b, v = .ptr b 0 → b < m.length := by
+  intro b hv
+  cases h with
+  | none => cases hv
+  | some b' str hc => cases hv; exact cstr_lt hc
+
+/-- the entry is still there in a memory that agrees with the old one outside `avoid` -/
+theorem EntMem.mono {m m' : Mem} {bs os : Nat} {e : Econf.Entry} {avoid : List Nat} (h : EntMem m bs os e avoid)
+    (hm : ∀ b, b < m.length → b ∉ avoid → m'[b]? = m[b]?) : EntMem m' bs os e avoid := by
+  obtain ⟨bg, g1, g2, g3⟩ := h.grp
+  obtain ⟨bq, k1, k2, k3⟩ := h.key
+  obtain ⟨v, v1, v2, v3⟩ := h.val
+  obtain ⟨vb, b1, b2, b3⟩ := h.cb
+  obtain ⟨va, a1, a2, a3⟩ := h.ca
+  have hs := hm bs (loadSlot_lt g1) h.self
+  refine ⟨h.self, ⟨bg, by rw [loadSlot_congr hs]; exact g1, by rw [cstr_congr (hm bg (cstr_lt g2) g3)]; exact g2, g3⟩,
+    ⟨bq, by rw [loadSlot_congr hs]; exact k1, by rw [cstr_congr (hm bq (cstr_lt k2) k3)]; exact k2, k3⟩,
+    ⟨v, by rw [loadSlot_congr hs]; exact v1, v2.mono (fun b hb => hm b (v2.lt b hb) (v3 b hb)), v3⟩,
+    ⟨vb, by rw [loadSlot_congr hs]; exact b1, b2.mono (fun b hb => hm b (b2.lt b hb) (b3 b hb)), b3⟩,
+    ⟨va, by rw [loadSlot_congr hs]; exact a1, a2.mono (fun b hb => hm b (a2.lt b hb) (a3 b hb)), a3⟩,
+    by rw [loadSlot_congr hs]; exact h.line⟩
+
+theorem GlMem.mono {m m' : Mem} {bk bl : Nat} {gl : List (Nat × List UInt8)} (h : GlMem m bk bl gl) (L : Nat)
+    (hm : ∀ b, b < m.length → b ≠ L → m'[b]? = m[b]?) (h1 : bk ≠ L) (h2 : bl ≠ L) (h3 : ∀ e, e ∈ gl → e.1 ≠ L) : GlMem m' bk bl gl := by
+  obtain ⟨kblk, k1, k2, k3, k4⟩ := h.kf
+  obtain ⟨gblk, g1, g2, g3, g4⟩ := h.arr
+  have lk : bk < m.length := (List.getElem?_eq_some_iff.1 k1).1
+  have la : bl < m.length := (List.getElem?_eq_some_iff.1 g1).1
+  refine ⟨⟨kblk, by rw [hm bk lk h1]; exact k1, k2, k3, k4⟩, ⟨gblk, by rw [hm bl la h2]; exact g1, g2, g3, ?_⟩⟩
+  intro i hi
+  obtain ⟨e1, e2⟩ := g4 i hi
+  exact ⟨e1, by rw [cstr_congr (hm _ (cstr_lt e2) (h3 _ (List.getElem_mem hi)))]; exact e2⟩
+
+/-- call of a translated function whose result is stored through an lvalue -/
+theorem exec_inl_lval {fuel : Nat} {args : Args} {nl : Nat} {body : Stmt} {st st1 st' st2 st3 : St} {vs : List Val} {v : Val} {dty : Ty}
+    {dst : LVal} {p : Place}
+    (ha : evalArgs args st = .ok (vs, st1))
+    (hb : exec fuel body { mem := st1.mem, loc := vs ++ List.replicate (nl - vs.length) .undef } = .ret v st')
+    (hl : evalL dst { mem := st'.mem, loc := st1.loc } = .ok (p, st2))
+    (hw : (convert dty v).bind (writePlace st2 dty p) = .ok st3) :
+    exec fuel (.inl (some dst) dty args nl body) st = .normal st3 := by
+  simp [exec, ha, hb, hl, hw]
+
+def cpOpt (k : Nat) : Stmt := .ite (.load (.slot (.load (.var 1) .ptr) k) .ptr)
+  (.expr (.assign (.slot (.load (.var 2) .ptr) k) (.call "strdup" (.cons (.load (.slot (.load (.var 1) .ptr) k) .ptr) .nil)) .ptr))
+  (.expr (.assign (.slot (.load (.var 2) .ptr) k) .null .ptr))
+
+theorem cpy_file_entry_shape : LeafFns.cpy_file_entry.body =
+    .seq (.expr (.assign (.var 2) (.call "alloca_words" (.cons (.lit 7 .u64) .nil)) .ptr))
+      (.seq (.inl (some (.slot (.load (.var 2) .ptr) 0)) .ptr (.cons (.load (.var 0) .ptr) (.cons (.load (.slot (.load (.var 1) .ptr) 0) .ptr) .nil)) 3
+          LeafFns.setGroupList.body)
+        (.seq (.expr (.assign (.slot (.load (.var 2) .ptr) 1) (.call "strdup" (.cons (.load (.slot (.load (.var 1) .ptr) 1) .ptr) .nil)) .ptr))
+          (.seq (cpOpt 2) (.seq (cpOpt 3) (.seq (cpOpt 4)
+            (.seq (.expr (.assign (.slot (.load (.var 2) .ptr) 5) (.load (.slot (.load (.var 1) .ptr) 5) .u64) .u64))
+              (.seq (.expr (.assign (.slot (.load (.var 2) .ptr) 6) (.cast .bool (.lit 0 .i32)) .bool))
+                (.ret (some (.load (.var 2) .ptr)))))))))) := rfl
+
+/-- `cpy_file_entry(dest_kf, fe)` on the translated term: no fault; the copy (a struct of the callee, block `m.length`) holds
+    the model's `cpyEntry fe` – fresh copies of key, value and comments, the line number, the quote flag cleared – with its
+    group pointer taken from the destination's group list, which is `addGroup` of the old one; the source is untouched. -/
+theorem cpy_file_entry_exec (m : Mem) (bk bl bs os : Nat) (gl : List (Nat × List UInt8)) (e : Econf.Entry)
+    (hG : GlMem m bk bl gl) (hE : EntMem m bs os e [bk, bl])
+    (hkw : ∀ blk, m[bk]? = some blk → blk.writable = true) (hne : bk ≠ bl) (hd : ∀ x, x ∈ gl → x.1 ≠ bk ∧ x.1 ≠ bl)
+    (hsmall : (gl.length : Int) + 2 < 2147483648) (hline : (e.line : Int) < 18446744073709551616) (fuel : Nat) (hf : gl.length + 1 < fuel) :
+    ∃ m' loc' bl' gl', exec fuel LeafFns.cpy_file_entry.body { mem := m, loc := [.ptr bk 0, .ptr bs (os : Int), .undef] } =
+        .ret (.ptr m.length 0) { mem := m', loc := loc' } ∧
+      EntMem m' m.length 0 (Econf.cpyEntry e) [] ∧ m'.loadSlot m.length 6 = .ok (.int 0) ∧
+      GlMem m' bk bl' gl' ∧ gl'.map (·.2) = Econf.addGroup (gl.map (·.2)) e.group ∧
+      (∃ bg, m'.loadSlot m.length 0 = .ok (.ptr bg 0) ∧ (bg, e.group) ∈ gl') ∧
+      (∀ b, b < m.length → b ≠ bk → b ≠ bl → m'[b]? = m[b]?) := by
+  let L := m.length
+  let sl0 : List Val := List.replicate 7 .undef
+  let m0 : Mem := m ++ [{ cells := [], slots := sl0 }]
+  have hS1 : exec fuel (.expr (.assign (.var 2) (.call "alloca_words" (.cons (.lit 7 .u64) .nil)) .ptr))
+      { mem := m, loc := [.ptr bk 0, .ptr bs (os : Int), .undef] } = .normal { mem := m0, loc := [.ptr bk 0, .ptr bs (os : Int), .ptr L 0] } := by
+    simp [exec, evalE, evalL, evalArgs, writePlace, builtin, Mem.allocWords, convert, bind, Except.bind, m0, sl0, L]
+  rw [cpy_file_entry_shape, exec_seq_normal hS1]
+  have hm0fr : ∀ b, b < m.length → m0[b]? = m[b]? := fun b hb => by simp [m0, List.getElem?_append_left hb]
+  have hm0L : m0[L]? = some { cells := [], slots := sl0 } := by simp [m0, L]
+  -- the object and the source entry in the grown memory
+  obtain ⟨kblk, k1, _⟩ := hG.kf
+  obtain ⟨gblk, g1, _⟩ := hG.arr
+  have hbk : bk < L := (List.getElem?_eq_some_iff.1 k1).1
+  have hbl : bl < L := (List.getElem?_eq_some_iff.1 g1).1
+  have hG0 : GlMem m0 bk bl gl := hG.mono L (fun b hb _ => hm0fr b hb) (by omega) (by omega) (fun x hx => by
+    obtain ⟨i, hi, rfl⟩ := List.getElem_of_mem hx
+    obtain ⟨ablk, a1, a2, a3, a4⟩ := hG.arr
+    have := cstr_lt (a4 i hi).2
+    omega)
+  have hE0 : EntMem m0 bs os e [bk, bl] := hE.mono (fun b hb _ => hm0fr b hb)
+  obtain ⟨bg, eg1, eg2, eg3⟩ := hE0.grp
+  have hbgne : bg ≠ bk ∧ bg ≠ bl := by simpa using eg3
+  have hkw0 : ∀ blk, m0[bk]? = some blk → blk.writable = true := fun blk hb => hkw blk (by rw [← hm0fr bk hbk]; exact hb)
+  obtain ⟨m1, loc1, b', bl', gl', hsg, hG1, hnames, hmem1, hlen1, hfr1, hkw1, hne1, hd1, hgl'len⟩ :=
+    setGroupList_spec m0 bk bl bg gl e.group hG0 eg2 hkw0 hne hd hbgne hsmall fuel hf
+  have hm0len : m0.length = L + 1 := by simp [m0, L]
+  have hm1L : m1[L]? = some { cells := [], slots := sl0 } := by rw [hfr1 L (by omega) (by omega) (by omega)]; exact hm0L
+  -- the group pointer goes into member 0 of the copy
+  let sl1 := sl0.set 0 (.ptr b' 0)
+  let m1' : Mem := m1.set L { cells := [], slots := sl1 }
+  have hargs : evalArgs (.cons (.load (.var 0) .ptr) (.cons (.load (.slot (.load (.var 1) .ptr) 0) .ptr) .nil))
+      { mem := m0, loc := [.ptr bk 0, .ptr bs (os : Int), .ptr L 0] } =
+      .ok ([.ptr bk 0, .ptr bg 0], { mem := m0, loc := [.ptr bk 0, .ptr bs (os : Int), .ptr L 0] }) := by
+    simp [evalArgs, evalE, evalL, readPlace, eg1, bind, Except.bind]
+  have hS2 : exec fuel (.inl (some (.slot (.load (.var 2) .ptr) 0)) .ptr (.cons (.load (.var 0) .ptr) (.cons (.load (.slot (.load (.var 1) .ptr) 0) .ptr) .nil)) 3
+      LeafFns.setGroupList.body) { mem := m0, loc := [.ptr bk 0, .ptr bs (os : Int), .ptr L 0] } =
+      .normal { mem := m1', loc := [.ptr bk 0, .ptr bs (os : Int), .ptr L 0] } := by
+    have hst := storeSlot_of (m := m1) (b := L) (i := 0) (.ptr b' 0) hm1L rfl rfl (by simp [sl0])
+    refine exec_inl_lval (p := .slot L 0) (st2 := { mem := m1, loc := [.ptr bk 0, .ptr bs (os : Int), .ptr L 0] }) hargs (by simpa using hsg) ?_ ?_
+    · simp [evalL, evalE, readPlace, bind, Except.bind]
+    · have : m1.storeSlot L 0 (.ptr b' 0) = .ok m1' := by simpa [m1', sl1] using hst
+      simp [convert, writePlace, this, Except.bind, Except.map]
+  rw [exec_seq_normal hS2]
+  -- what every later memory keeps: the caller's blocks other than the object's two, and the blocks behind `L`
+  have hm1'L : m1'[L]? = some { cells := [], slots := sl1 } := by
+    have : L < m1.length := by omega
+    simp [m1', this]
+  have hag1 : ∀ b, b < L → b ≠ bk → b ≠ bl → m1'[b]? = m[b]? := by
+    intro b hb h1 h2
+    have : b ≠ L := by omega
+    simp only [m1']; rw [set_other this, hfr1 b (by omega) h1 h2, hm0fr b hb]
+  have hm1'len : m1'.length = m1.length := by simp [m1']
+  have monoE : ∀ mm : Mem, (∀ b, b < L → b ≠ bk → b ≠ bl → mm[b]? = m[b]?) → EntMem mm bs os e [bk, bl] :=
+    fun mm hag => hE.mono (fun b hb hav => hag b hb (by simpa using (by simpa using hav : b ≠ bk ∧ b ≠ bl).1) (by simpa using (by simpa using hav : b ≠ bk ∧ b ≠ bl).2))
+  -- key
+  have hE1 := monoE m1' hag1
+  obtain ⟨bq, q1, q2, _⟩ := hE1.key
+  obtain ⟨mm2, hS3, hL2, hlen2, hkey2, hfr2⟩ := cp_strdup fuel m1' bk bs L os 1 sl1 bq e.key hm1'L (by simp [sl1, sl0]) (by simpa using q1) q2
+  have hag2 : ∀ b, b < L → b ≠ bk → b ≠ bl → mm2[b]? = m[b]? := fun b hb h1 h2 => by
+    rw [hfr2 b (by omega) (by omega)]; exact hag1 b hb h1 h2
+  -- value and the two comments
+  have hE2 := monoE mm2 hag2
+  obtain ⟨v2, w1, w2, _⟩ := hE2.val
+  obtain ⟨mm3, v2', hS4, hL3, hval3, hlen3, hfr3⟩ := cp_opt fuel mm2 bk bs L os 2 _ v2 e.value hL2 (by simp [sl1, sl0]) (by simpa using w1) w2
+  have hag3 : ∀ b, b < L → b ≠ bk → b ≠ bl → mm3[b]? = m[b]? := fun b hb h1 h2 => by
+    rw [hfr3 b (by omega) (by omega)]; exact hag2 b hb h1 h2
+  have hE3 := monoE mm3 hag3
+  obtain ⟨v3, x1, x2, _⟩ := hE3.cb
+  obtain ⟨mm4, v3', hS5, hL4, hcb4, hlen4, hfr4⟩ := cp_opt fuel mm3 bk bs L os 3 _ v3 e.cb hL3 (by simp [sl1, sl0]) (by simpa using x1) x2
+  have hag4 : ∀ b, b < L → b ≠ bk → b ≠ bl → mm4[b]? = m[b]? := fun b hb h1 h2 => by
+    rw [hfr4 b (by omega) (by omega)]; exact hag3 b hb h1 h2
+  have hE4 := monoE mm4 hag4
+  obtain ⟨v4, y1, y2, _⟩ := hE4.ca
+  obtain ⟨mm5, v4', hS6, hL5, hca5, hlen5, hfr5⟩ := cp_opt fuel mm4 bk bs L os 4 _ v4 e.ca hL4 (by simp [sl1, sl0]) (by simpa using y1) y2
+  have hag5 : ∀ b, b < L → b ≠ bk → b ≠ bl → mm5[b]? = m[b]? := fun b hb h1 h2 => by
+    rw [hfr5 b (by omega) (by omega)]; exact hag4 b hb h1 h2
+  have hE5 := monoE mm5 hag5
+  rw [exec_seq_normal hS3]
+  unfold cpOpt
+  rw [exec_seq_normal hS4, exec_seq_normal hS5, exec_seq_normal hS6]
+  -- line number and quote flag
+  let sl5 := (((sl1.set 1 (.ptr m1'.length 0)).set 2 v2').set 3 v3').set 4 v4'
+  have hL5' : mm5[L]? = some { cells := [], slots := sl5 } := hL5
+  let sl6 := sl5.set 5 (.int (e.line : Int))
+  let mm6 : Mem := mm5.set L { cells := [], slots := sl6 }
+  have hln5 := hE5.line
+  have hS7 : exec fuel (.expr (.assign (.slot (.load (.var 2) .ptr) 5) (.load (.slot (.load (.var 1) .ptr) 5) .u64) .u64))
+      { mem := mm5, loc := [.ptr bk 0, .ptr bs (os : Int), .ptr L 0] } = .normal { mem := mm6, loc := [.ptr bk 0, .ptr bs (os : Int), .ptr L 0] } := by
+    have hw : wrapTo .u64 (e.line : Int) = e.line := wrapTo_u64_small _ (Int.natCast_nonneg _) hline
+    have hst := storeSlot_of (m := mm5) (b := L) (i := 5) (.int (e.line : Int)) hL5' rfl rfl (by simp [sl5, sl1, sl0])
+    have hst' : mm5.storeSlot L 5 (.int (e.line : Int)) = .ok mm6 := by simpa [mm6, sl6] using hst
+    simp [exec, evalE, evalL, readPlace, writePlace, hln5, convert, hw, hst', bind, Except.bind, Except.map]
+  let sl7 := sl6.set 6 (.int 0)
+  let mm7 : Mem := mm6.set L { cells := [], slots := sl7 }
+  have hL6 : mm6[L]? = some { cells := [], slots := sl6 } := by
+    have : L < mm5.length := by omega
+    simp [mm6, this]
+  have hS8 : exec fuel (.expr (.assign (.slot (.load (.var 2) .ptr) 6) (.cast .bool (.lit 0 .i32)) .bool))
+      { mem := mm6, loc := [.ptr bk 0, .ptr bs (os : Int), .ptr L 0] } = .normal { mem := mm7, loc := [.ptr bk 0, .ptr bs (os : Int), .ptr L 0] } := by
+    have b0 : wrapTo .bool 0 = 0 := by decide
+    have hst := storeSlot_of (m := mm6) (b := L) (i := 6) (.int 0) hL6 rfl rfl (by simp [sl6, sl5, sl1, sl0])
+    have hst' : mm6.storeSlot L 6 (.int 0) = .ok mm7 := by simpa [mm7, sl7] using hst
+    simp [exec, evalE, evalL, readPlace, writePlace, convert, b0, hst', bind, Except.bind, Except.map]
+  rw [exec_seq_normal hS7, exec_seq_normal hS8]
+  -- what is left: blocks other than `L` as in `mm5`
+  have hfr7 : ∀ b, b ≠ L → mm7[b]? = mm5[b]? := fun b hb => by simp only [mm7, mm6]; rw [set_other hb, set_other hb]
+  have hL7 : mm7[L]? = some { cells := [], slots := sl7 } := by
+    have : L < mm6.length := by simp [mm6]; omega
+    simp [mm7, this]
+  have hag7 : ∀ b, b < L → b ≠ bk → b ≠ bl → mm7[b]? = m[b]? := fun b hb h1 h2 => by rw [hfr7 b (by omega)]; exact hag5 b hb h1 h2
+  -- blocks of `m1` other than `L` are as in `m1` at the end; so are the copies made on the way
+  have hlen2' : mm2.length = m1.length + 1 := by rw [hlen2, hm1'len]
+  have keep2 : ∀ b, b < mm2.length → b ≠ L → mm7[b]? = mm2[b]? := fun b hb hne' => by
+    rw [hfr7 b hne', hfr5 b (by omega) hne', hfr4 b (by omega) hne', hfr3 b hb hne']
+  have keep3 : ∀ b, b < mm3.length → b ≠ L → mm7[b]? = mm3[b]? := fun b hb hne' => by
+    rw [hfr7 b hne', hfr5 b (by omega) hne', hfr4 b hb hne']
+  have keep4 : ∀ b, b < mm4.length → b ≠ L → mm7[b]? = mm4[b]? := fun b hb hne' => by
+    rw [hfr7 b hne', hfr5 b hb hne']
+  have keep1 : ∀ b, b < m1.length → b ≠ L → mm7[b]? = m1[b]? := fun b hb hne' => by
+    rw [keep2 b (by omega) hne', hfr2 b (by omega) hne']
+    simp only [m1']; rw [set_other hne']
+  -- a block of words holds no string
+  have noStr : ∀ (mm : Mem) (sl : List Val) (str : List UInt8), mm[L]? = some ({ cells := [], slots := sl } : Block) → mm.cstr L 0 ≠ .ok str := by
+    intro mm sl str hmm hc
+    simp [Mem.cstr, Mem.block, hmm, cstrFrom, bind, Except.bind] at hc
+  obtain ⟨ig, hig, hgi⟩ := List.getElem_of_mem hmem1
+  obtain ⟨ablk, a1, a2, a3, a4⟩ := hG1.arr
+  have hb'str : m1.cstr b' 0 = .ok e.group := by
+    have := (a4 ig hig).2
+    rw [hgi] at this; exact this
+  have hb'ne : b' ≠ L := fun hh => noStr m1 sl0 e.group hm1L (hh ▸ hb'str)
+  have hbl'ne : bl' ≠ L := by
+    intro hh
+    have h0 : 0 < gl'.length := by omega
+    have := (a4 0 h0).1
+    rw [hh, hm1L] at a1
+    injection a1 with a1
+    rw [← a1] at this
+    simp [sl0] at this
+  have hgl'ne : ∀ x, x ∈ gl' → x.1 ≠ L := by
+    intro x hx hh
+    obtain ⟨i, hi, rfl⟩ := List.getElem_of_mem hx
+    exact noStr m1 sl0 _ hm1L (hh ▸ (a4 i hi).2)
+  have hG7 : GlMem mm7 bk bl' gl' := hG1.mono L keep1 (by omega) hbl'ne hgl'ne
+  have hsl7 : sl7 = [.ptr b' 0, .ptr m1'.length 0, v2', v3', v4', .int (e.line : Int), .int 0] := by
+    simp [sl7, sl6, sl5, sl1, sl0]
+  have ld : ∀ (i : Nat) (v : Val), sl7[i]? = some v → v ≠ .undef → mm7.loadSlot L (i : Int) = .ok v :=
+    fun i v hi hv => loadSlot_of hL7 rfl hi hv
+  have hkey7 : mm7.cstr m1'.length 0 = .ok e.key := by
+    rw [cstr_congr (keep2 _ (by omega) (by omega))]; exact hkey2
+  have ov : ∀ (v : Val) (so : Option (List UInt8)) (mm : Mem), OptStr mm v so → (∀ b, b < mm.length → b ≠ L → mm7[b]? = mm[b]?) →
+      (∀ str, mm.cstr L 0 ≠ .ok str) → OptStr mm7 v so ∧ v ≠ .undef := by
+    intro v so mm hv hk hno
+    refine ⟨hv.mono (fun b hb => hk b (hv.lt b hb) ?_), by cases hv <;> simp⟩
+    intro hbL
+    cases hv with
+    | none => cases hb
+    | some b2 str hc => cases hb; exact hno str (hbL ▸ hc)
+  obtain ⟨o2, n2⟩ := ov v2' e.value mm3 hval3 keep3 (fun str => noStr mm3 _ str hL3)
+  obtain ⟨o3, n3⟩ := ov v3' e.cb mm4 hcb4 keep4 (fun str => noStr mm4 _ str hL4)
+  obtain ⟨o4, n4⟩ := ov v4' e.ca mm5 hca5 (fun b _ hne' => hfr7 b hne') (fun str => noStr mm5 _ str hL5)
+  have hg7 : mm7.loadSlot L 0 = .ok (.ptr b' 0) := by simpa using ld 0 _ (by rw [hsl7]; rfl) (by simp)
+  refine ⟨mm7, [.ptr bk 0, .ptr bs (os : Int), .ptr L 0], bl', gl', by simp [exec, evalE, evalL, readPlace, bind, Except.bind, L], ?_, ?_, hG7, hnames,
+    ⟨b', hg7, hmem1⟩, hag7⟩
+  · refine ⟨by simp, ⟨b', by simpa using hg7, by rw [cstr_congr (keep1 b' (cstr_lt hb'str) hb'ne)]; simpa [Econf.cpyEntry] using hb'str, by simp⟩,
+      ⟨m1'.length, by simpa using ld 1 _ (by rw [hsl7]; rfl) (by simp), by simpa [Econf.cpyEntry] using hkey7, by simp⟩,
+      ⟨v2', by simpa using ld 2 _ (by rw [hsl7]; rfl) n2, by simpa [Econf.cpyEntry] using o2, by simp⟩,
+      ⟨v3', by simpa using ld 3 _ (by rw [hsl7]; rfl) n3, by simpa [Econf.cpyEntry] using o3, by simp⟩,
+      ⟨v4', by simpa using ld 4 _ (by rw [hsl7]; rfl) n4, by simpa [Econf.cpyEntry] using o4, by simp⟩,
+      by simpa [Econf.cpyEntry] using ld 5 _ (by rw [hsl7]; rfl) (by simp)⟩
+  · simpa using ld 6 _ (by rw [hsl7]; rfl) (by simp)
+
 end LeafKf
